@@ -18,6 +18,8 @@ use crate::common::*;
 const KINDS: [&str; 7] = ["match", "mismatch", "garbage", "expired", "absent", "premature", "badsig"];
 const TAL_KEY: usize = 0;
 const EVIL_KEY: usize = 5;
+/// The key of the TAL that replaces the original one in key-switch histories.
+const NEW_KEY: usize = 6;
 
 fn uri(i: usize) -> String { format!("rsync://rpki.test/repo/ta{i}.cer") }
 
@@ -28,6 +30,8 @@ fn target(kind: &str, i: usize) -> (String, usize) {
         "expired" | "shortlived" => (format!("old{i}"), TAL_KEY),
         "premature" => (format!("new{i}"), TAL_KEY),
         "badsig" => (format!("sig{i}"), TAL_KEY),
+        "newkey" => (format!("alt{i}"), NEW_KEY),
+        "newkey-expired" => (format!("oldalt{i}"), NEW_KEY),
         _ => (format!("root{i}"), TAL_KEY),
     }
 }
@@ -35,7 +39,7 @@ fn target(kind: &str, i: usize) -> (String, usize) {
 fn asn(kind: &str, i: usize) -> u32 {
     let base = match kind {
         "mismatch" => 64600, "expired" | "shortlived" => 64700, "premature" => 64800,
-        "badsig" => 64900, _ => 64500,
+        "badsig" => 64900, "newkey" => 65100, "newkey-expired" => 65200, _ => 64500,
     };
     base + i as u32
 }
@@ -46,7 +50,7 @@ fn world(n_uris: usize) -> World {
     let uris: Vec<String> = (1..=n_uris).map(uri).collect();
     world.tals.push(tal("ta", TAL_KEY, &uris.iter().map(String::as_str).collect::<Vec<_>>()));
     for i in 1..=n_uris {
-        for kind in ["match", "mismatch", "expired", "premature", "badsig"] {
+        for kind in ["match", "mismatch", "expired", "premature", "badsig", "newkey", "newkey-expired"] {
             let (name, key) = target(kind, i);
             let mut spec = ca(&name, key, &format!("rpki.test/repo/{name}/"), &uri(i));
             let mut v = version(1, T0 - 3 * DAY, T0 + 30 * DAY);
@@ -70,7 +74,7 @@ fn ta_content(kind: &str, i: usize) -> Option<TaFile> {
             uri: uri(i),
             content: TaContent::Raw { hex: rpkitest::build::hex_encode(format!("no certificate here {i}").as_bytes()) },
         }),
-        "expired" => (T0 - 20 * DAY, T0 - DAY, Fault::None),
+        "expired" | "newkey-expired" => (T0 - 20 * DAY, T0 - DAY, Fault::None),
         // Valid during the first run (T0 - 2 days), expired by the second (T0).
         "shortlived" => (T0 - 20 * DAY, T0 - HOUR, Fault::None),
         "premature" => (T0 + DAY, T0 + YEAR, Fault::None),
@@ -106,13 +110,13 @@ struct Cand {
     ca: Option<String>,
 }
 
-fn classify(content: Option<&TaContent>, now: i64) -> Cand {
+fn classify(content: Option<&TaContent>, now: i64, tal_key: usize) -> Cand {
     match content {
         Some(TaContent::Cert { ca, key, not_before, not_after, fault, res, .. }) => {
             let decodes = !matches!(fault, Fault::Garbage);
             Cand {
                 decodes,
-                usable: decodes && *key == TAL_KEY && matches!(fault, Fault::None)
+                usable: decodes && *key == tal_key && matches!(fault, Fault::None)
                     && *not_before <= now && now <= *not_after && !res.inherit,
                 ca: Some(ca.clone()),
             }
@@ -129,7 +133,6 @@ fn oracle(ctx: &mut Ctx, player: &Player, input: &Value, scn: &Scenario, played:
             by_hash.insert(sha256(&player.builder.ta_bytes(&scn.world, &ta.content)), ta.content.clone());
         }
     }
-    let tal = &scn.world.tals[0];
     for (r, run) in scn.runs.iter().enumerate() {
         let ob = &played.obs[r];
         if !ob.out.ok() {
@@ -140,90 +143,101 @@ fn oracle(ctx: &mut Ctx, player: &Player, input: &Value, scn: &Scenario, played:
             continue
         }
         let served: BTreeSet<String> = ob.out.payload().into_iter().collect();
-        let mut candidates = Vec::new();
+        // The TALs installed during this run: ground truth for "the TAL key".
+        let tals = scn.world.tals_in(r);
+        let mut allowed: BTreeSet<String> = BTreeSet::new();
+        let mut any_usable = false;
         let mut stored_ok = true;
-        for u in &tal.uris {
-            let download_bytes = ob.local.get(u);
-            let download = classify(download_bytes.and_then(|b| by_hash.get(&sha256(b))), run.now);
-            let before_bytes = if r == 0 { None } else { played.obs[r - 1].store.tas.get(&ta_store_path(u)) };
-            let stored = classify(before_bytes.and_then(|b| by_hash.get(&sha256(b))), run.now);
-            let after_bytes = ob.store.tas.get(&ta_store_path(u));
-            // An undecodable download never replaces the stored copy.
-            if let Some(dl) = download_bytes {
-                if !download.decodes {
-                    if after_bytes == Some(dl) {
-                        stored_ok = false;
-                        ctx.oracle_fail(
-                            "undecodable-ta-stored",
-                            &format!("run {r}: the undecodable download at {u} was written to the store"),
-                            input, obs_json(&played.obs)
-                        );
+        let mut all_candidates = Vec::new();
+        for tal in &tals {
+            let mut candidates = Vec::new();
+            for u in &tal.uris {
+                let download_bytes = ob.local.get(u);
+                let download = classify(download_bytes.and_then(|b| by_hash.get(&sha256(b))), run.now, tal.key);
+                let before_bytes = if r == 0 { None } else { played.obs[r - 1].store.tas.get(&ta_store_path(u)) };
+                let stored = classify(before_bytes.and_then(|b| by_hash.get(&sha256(b))), run.now, tal.key);
+                let after_bytes = ob.store.tas.get(&ta_store_path(u));
+                // An undecodable download never replaces the stored copy.
+                if let Some(dl) = download_bytes {
+                    if !download.decodes {
+                        if after_bytes == Some(dl) {
+                            stored_ok = false;
+                            ctx.oracle_fail(
+                                "undecodable-ta-stored",
+                                &format!("run {r}: the undecodable download at {u} was written to the store"),
+                                input, obs_json(&played.obs)
+                            );
+                        }
+                        else if after_bytes.is_some() && after_bytes != before_bytes {
+                            stored_ok = false;
+                            ctx.oracle_fail(
+                                "stored-ta-changed",
+                                &format!("run {r}: the stored copy for {u} changed although the download does not decode"),
+                                input, obs_json(&played.obs)
+                            );
+                        }
                     }
-                    else if after_bytes.is_some() && after_bytes != before_bytes {
-                        stored_ok = false;
-                        ctx.oracle_fail(
-                            "stored-ta-changed",
-                            &format!("run {r}: the stored copy for {u} changed although the download does not decode"),
-                            input, obs_json(&played.obs)
-                        );
+                }
+                let cand = if download.decodes { download.clone() } else { stored.clone() };
+                candidates.push((u.clone(), download, cand));
+            }
+            allowed.extend(candidates.iter().filter(|c| c.2.usable).filter_map(|c| c.2.ca.clone()));
+            // The stored copy is used when the download fails (and it is a
+            // valid trust anchor for THIS TAL's key, and earlier URIs fail).
+            match candidates.iter().position(|c| c.2.usable) {
+                None => ctx.count("tal:no-usable-ta"),
+                Some(pos) => {
+                    any_usable = true;
+                    let (u, download, cand) = &candidates[pos];
+                    if !download.decodes {
+                        ctx.count("tal:stored-copy-used");
+                        let expected = payload_universe(&scn.world, cand.ca.as_ref().unwrap());
+                        if stored_ok && !expected.iter().all(|p| served.contains(p)) {
+                            ctx.oracle_fail(
+                                "stored-ta-not-used",
+                                &format!(
+                                    "run {r}: the download at {u} fails, the stored copy is a valid \
+                                     trust anchor for the key of TAL {} and all earlier URIs fail, \
+                                     but its payload {expected:?} is not served ({served:?})", tal.name
+                                ),
+                                input, obs_json(&played.obs)
+                            );
+                        }
+                    }
+                    else {
+                        ctx.count("tal:download-used");
                     }
                 }
             }
-            let cand = if download.decodes { download.clone() } else { stored.clone() };
-            candidates.push((u.clone(), download_bytes.is_some(), download, stored, cand));
+            all_candidates.push((tal.name.clone(), tal.key, candidates));
         }
         if !stored_ok { continue }
-        // (1) Payload may only come from CAs named by a usable candidate.
-        let allowed: BTreeSet<String> = candidates.iter().filter(|c| c.4.usable)
-            .filter_map(|c| c.4.ca.clone()).collect();
+        // Payload may only come from CAs named by a certificate that carries
+        // the key of a TAL installed NOW and validates — whatever the store holds.
         for ca in &scn.world.cas {
             let universe = payload_universe(&scn.world, &ca.name);
             if served.iter().any(|p| universe.contains(p)) && !allowed.contains(&ca.name) {
                 ctx.oracle_fail(
                     "unusable-ta-used",
                     &format!(
-                        "run {r}: payload of CA {} is served, but no trust anchor certificate with \
-                         the TAL's key that validates points to it (candidates: {:?})",
-                        ca.name, candidates.iter().map(|c| (&c.0, &c.4)).collect::<Vec<_>>()
+                        "run {r}: payload of CA {} is served, but no certificate with the key of a \
+                         currently installed TAL that validates as trust anchor points to it \
+                         (TAL name, TAL key, candidates per URI: {:?})",
+                        ca.name,
+                        all_candidates.iter().map(|(n, k, c)| {
+                            (n, k, c.iter().map(|c| (&c.0, &c.2)).collect::<Vec<_>>())
+                        }).collect::<Vec<_>>()
                     ),
                     input, obs_json(&played.obs)
                 );
             }
         }
-        // (2) The stored copy is used when the download fails; (3) all fail ⇒ nothing.
-        let first_usable = candidates.iter().position(|c| c.4.usable);
-        match first_usable {
-            None => {
-                ctx.count("tal:no-usable-ta");
-                if !served.is_empty() {
-                    ctx.oracle_fail(
-                        "payload-without-ta",
-                        &format!("run {r}: every URI fails but payload {served:?} is served"),
-                        input, obs_json(&played.obs)
-                    );
-                }
-            }
-            Some(pos) => {
-                let (u, _, download, _, cand) = &candidates[pos];
-                if !download.decodes {
-                    ctx.count("tal:stored-copy-used");
-                    let expected = payload_universe(&scn.world, cand.ca.as_ref().unwrap());
-                    if !expected.iter().all(|p| served.contains(p)) {
-                        ctx.oracle_fail(
-                            "stored-ta-not-used",
-                            &format!(
-                                "run {r}: the download at {u} fails, the stored copy is a valid \
-                                 trust anchor for the TAL key and all earlier URIs fail, but its \
-                                 payload {expected:?} is not served ({served:?})"
-                            ),
-                            input, obs_json(&played.obs)
-                        );
-                    }
-                }
-                else {
-                    ctx.count("tal:download-used");
-                }
-            }
+        if !any_usable && !served.is_empty() {
+            ctx.oracle_fail(
+                "payload-without-ta",
+                &format!("run {r}: every URI of every TAL fails but payload {served:?} is served"),
+                input, obs_json(&played.obs)
+            );
         }
     }
 }
@@ -288,6 +302,41 @@ fn generate(ctx: &mut Ctx) -> Vec<Value> {
             }
         }
     }
+    // The TAL file is replaced by one with another key and the same URI between runs:
+    // run 0 under the old TAL (key 0), run 1 under the new one (key 6), run 2 under the old
+    // one again with nothing to download. download x stored copy, all combinations.
+    for stored in ["match", "shortlived", "absent"] {
+        for download in ["newkey", "match", "garbage", "absent", "newkey-expired"] {
+            ctx.nontrivial(format!("key-switch stored={stored} download={download}"));
+            let mut w = world(1);
+            w.tals = vec![
+                TalSpec { runs: Some(vec![0, 2]), ..tal("ta", TAL_KEY, &[&uri(1)]) },
+                TalSpec { runs: Some(vec![1]), ..tal("ta", NEW_KEY, &[&uri(1)]) },
+            ];
+            let scn = Scenario {
+                world: w.clone(), opts: EngineOpts::default(),
+                runs: vec![
+                    run(T0 - 2 * DAY, &w, &[stored]), run(T0, &w, &[download]),
+                    run(T0 + HOUR, &w, &["absent"]),
+                ],
+            };
+            cases.push(json!({ "scenario": to_json(&scn), "memo": 1 }));
+        }
+    }
+    // Two TALs with different keys sharing one URI.
+    for second in ["match", "newkey", "garbage", "absent"] {
+        ctx.nontrivial(format!("shared-uri second={second}"));
+        let mut w = world(1);
+        w.tals = vec![tal("ta", TAL_KEY, &[&uri(1)]), tal("tb", NEW_KEY, &[&uri(1)])];
+        let scn = Scenario {
+            world: w.clone(), opts: EngineOpts::default(),
+            runs: vec![
+                run(T0 - 2 * DAY, &w, &["match"]), run(T0, &w, &[second]),
+                run(T0 + HOUR, &w, &["absent"]),
+            ],
+        };
+        cases.push(json!({ "scenario": to_json(&scn), "memo": 1 }));
+    }
     cases
 }
 
@@ -297,7 +346,11 @@ pub fn run_c10(ctx: &mut Ctx) {
         absent; the store holds nothing, a good copy, a wrong-key copy or a copy expired by now \
         (first run two days earlier). Exhaustive for 1 and 2 URIs over the main kinds, sampled \
         (thorough: exhaustive) for 3. Every certificate kind points to its own CA with its own \
-        payload. Non-trivial = distinct (stored pattern, download pattern)".into();
+        payload. Key-switch histories: the TAL file is replaced by one with another key and \
+        the same URI between runs (stored copy old-key valid / expired / none x download \
+        new-key / old-key / garbage / absent / new-key expired, then back to the old TAL); two \
+        TALs with different keys sharing one URI. The oracle takes the TAL key from the TALs \
+        installed in the run. Non-trivial = distinct (stored pattern, download pattern)".into();
     let mut player = Player::new();
     let inputs = match ctx.replay_inputs() {
         Some(inputs) => inputs,
